@@ -438,7 +438,7 @@ def rand_cfg(rng, mods, timeout=None):
     return Cfg(timeout=timeout, services=services, rules=rules)
 
 
-PASSWORDS = ["+x acct pass", "+! acct pass", "+x! acct pass", "-! acct pass", "-x+! acct pass", "+x", "+x acct",
+PASSWORDS = ["+x acct " + "p" * 503, "+x " + "a" * 300 + " " + "p" * 209, "+! acct ", "+x acct pass", "+! acct pass", "+x! acct pass", "-! acct pass", "-x+! acct pass", "+x", "+x acct",
              "acct pass", "+xzz!  acct  pass word", "+ a b", "-!", "+!x acct pass", "x acct pass", "+x-x acct p"]
 REPLIES = ["OK", "OK acct", "OK acct:123:4", "OK acctx:9", "OK acc", "OK acc:7", "OK ", "OK  two", "NO go away", "NO ", "NO", "AGAIN try later", "AGAIN",
            "MORE challenge text", "MORE", "OKAY", "ok", "BOGUS text", "OK " + "a" * 70, "NO " + "r" * 1100,
@@ -469,7 +469,13 @@ def client_script(rng, cid, cfg, mods):
     if rng.random() < 0.9:
         items.append(("line", "n " + field(rng, "nick", 30)))
     if rng.random() < 0.9:
-        items.append(("line", "U " + field(rng, "user", 10) + " :" + field(rng, "real name", 50)))
+        real = field(rng, "real name", 50)
+        if rng.random() < 0.12:
+            # a carriage return inside a text is a byte of the text, not a line end (seeded change
+            # C10-7 read lines with EVBUFFER_EOL_ANY: the rest of the text became a line of its own)
+            real = rng.choice(["Bob", ""]) + "\r" + rng.choice(["%d D" % rng.choice([1, 2, 5, 7, 300]), "%d T" % rng.choice([1, 2, 5, 7, 300]),
+                                                                 "77 C 10.9.9.9 4242 0::1 6667", "%d H" % rng.choice([1, 2, 5, 7, 300])])
+        items.append(("line", "U " + field(rng, "user", 10) + " :" + real))
     if rng.random() < 0.6:
         items.append(("line", "P :" + rng.choice(PASSWORDS)))
     if rng.random() < 0.15:
@@ -498,7 +504,7 @@ def client_script(rng, cid, cfg, mods):
     for _ in range(nrep):
         svc = rng.choice(names + ["other.srv"]) if names else "other.srv"
         kind = "x" if rng.random() < 0.12 else "X"
-        tagmode = rng.choice(["cur"] * 8 + ["stale", "plus1", "wrap", "garbage", "nosep", "upper"])
+        tagmode = rng.choice(["cur"] * 8 + ["stale", "plus1", "wrap", "garbage", "nosep", "upper", "respell", "respell"])
         pos = rng.randint(1, len(ev)) if rng.random() < 0.4 else len(ev)
         ev.insert(pos, ("reply", kind, svc, None if rng.random() < 0.06 else rng.choice(REPLIES), tagmode))
         if rng.random() < 0.2:
@@ -606,6 +612,12 @@ def render_schedule(rng, scripts, chunks=False):
                 tag = rng.choice(["zz", "_", "5_", "_1", "5_1x", "5__1", "-5_1", ""])
             elif tagmode == "nosep":
                 tag = "%s%x" % (idh, s)
+            elif tagmode == "respell":
+                # the same two numbers spelled another way (seeded change C03-7 compared the tag's
+                # text with a re-rendering): leading zeros, 0x prefixes, signs, upper case
+                tag = rng.choice(["0%s_00%x", "0x%s_0x%x", "+%s_+%x", "0X%s_%x", "%s_0%x"]) % (idh, s)
+                if rng.random() < 0.3:
+                    tag = tag.upper().replace("0X", "0x")
             else:
                 tag = ("%s_%x" % (idh, s)).upper()
             if text is None:
@@ -1100,14 +1112,19 @@ def hidden_only_scenario(rng, name):
     scripts = {}
     for cid in rng.sample([1, 5, 7, 300, 0, -2], rng.choice([1, 1, 2])):
         data = [("line", "N host.example"), ("line", "u ident"), ("line", "n nick"), ("line", "U user :real name"),
-                ("line", "P :" + rng.choice(["+! acct pass", "+x! acct pass", "+!x acct pass", "-x+! acct pass", "+! a b"]))]
+                ("line", "P :" + rng.choice(["+! acct pass", "+x! acct pass", "+!x acct pass", "-x+! acct pass", "+! a b", "+! acct ", "+!  acct  "]))]
         rng.shuffle(data)
         ev = [("C", rng.choice(CADDRS), "1234")] + data
         for svc, _t in services:
             n = rng.choice([1, 10, 63, 64, 65, 66, 70, 200])
             text = rng.choice(["OK " + "a" * n, "OK " + "b" * n + ":17", "OK " + "c" * n + " trailing words", "OK", "OK ", "OK  two",
-                               "NO go away", "AGAIN later", "MORE prove it", "BOGUS"])
+                               "NO go away", "NO ", "NO  ", "NO \t", "AGAIN later", "AGAIN ", "MORE prove it", "MORE ", "BOGUS"])
             ev.insert(rng.randint(len(ev) - 1, len(ev)), ("reply", rng.choice(["X"] * 6 + ["x"]), svc, text, "cur"))
+        if rng.random() < 0.5:
+            # whatever was said first, the same services speak again (a refusal is final: seeded
+            # change C02-7 lost `NO ` with an empty reason and accepted on the later OK / timeout)
+            for svc, _t in services:
+                ev.append(("reply", "X", svc, rng.choice(["OK", "OK acct", "OK acct:5"]), "cur"))
         if rng.random() < 0.3:
             ev.append(("line", "P :" + rng.choice(["-! acct pass", "+x acct pass", "answer"])))
         if cfg.timeout and rng.random() < 0.5:
